@@ -1294,3 +1294,258 @@ Example C11_accept_noncanonical_ex :
   = Some (MkMessage (Some (MkWantlist [MkEntry [1; 2] 0 false WTBlock false] false))
                     [MkBlock [] [97; 98; 99]] [] 4294967290).
 Proof. vm_compute. split; reflexivity. Qed.
+
+(* ------------------------------------------------------------------------------------------ *)
+(* Part H: where quick-protobuf is NOT the reference decoder (outside `in_class`)             *)
+
+(* `full` encoded as the varint 2^32 (80 80 80 80 10): proto3 says true (non-zero), quick-protobuf's
+   read_bool = read_varint32 != 0 keeps the low 32 bits only and says false. *)
+Theorem C11_truncation_refuted :
+  exists w m m',
+    ref_decode w = Some m /\
+    (forall chk, qp_read_message chk w (len w) = ROk m' (len w)) /\
+    m <> m' /\ in_classb w = false.
+Proof.
+  exists [10; 6; 16; 128; 128; 128; 128; 16],
+         (MkMessage (Some (MkWantlist [] true)) [] [] 0),
+         (MkMessage (Some (MkWantlist [] false)) [] [] 0).
+  split; [vm_compute; reflexivity|]. split; [intros [|]; vm_compute; reflexivity|].
+  split; [discriminate|vm_compute; reflexivity].
+Qed.
+
+(* a key that does not fit 32 bits (8a 80 80 80 10 = 10 + 2^32) is malformed; quick-protobuf
+   truncates it to 10 and reads a wantlist *)
+Theorem C11_truncation_refuted_key :
+  exists w m',
+    ref_decode w = None /\ (forall chk, qp_read_message chk w (len w) = ROk m' (len w)).
+Proof.
+  exists [138; 128; 128; 128; 16; 0], (MkMessage (Some (MkWantlist [] false)) [] [] 0).
+  split; [vm_compute; reflexivity|intros [|]; vm_compute; reflexivity].
+Qed.
+
+(* the singular message field `wantlist` given twice: proto3 merges the two (full = true survives),
+   quick-protobuf keeps the last one only *)
+Theorem C11_singular_merge_refuted :
+  exists w m m',
+    ref_decode w = Some m /\
+    (forall chk, qp_read_message chk w (len w) = ROk m' (len w)) /\
+    m <> m' /\ in_classb w = false.
+Proof.
+  exists [10; 2; 16; 1; 10; 0],
+         (MkMessage (Some (MkWantlist [] true)) [] [] 0),
+         (MkMessage (Some (MkWantlist [] false)) [] [] 0).
+  split; [vm_compute; reflexivity|]. split; [intros [|]; vm_compute; reflexivity|].
+  split; [discriminate|vm_compute; reflexivity].
+Qed.
+
+(* ------------------------------------------------------------------------------------------ *)
+(* Part I: enum numbers that the schema does not declare                                      *)
+
+Definition enum_entry_bytes (cid : bytes) (v : N) : bytes :=
+  qp_with_tag 10 (qp_write_bytes cid) ++ qp_with_tag 32 (qp_write_varint v).
+Definition enum_presence_bytes (cid : bytes) (v : N) : bytes :=
+  qp_with_tag 10 (qp_write_bytes cid) ++ qp_with_tag 16 (qp_write_varint v).
+(* Message { wantlist { entries { block = cid; wantType = v } }  blockPresences { cid = cid; type = v } } *)
+Definition enum_message_bytes (cid : bytes) (v : N) : bytes :=
+  qp_with_tag 10 (qp_write_bytes (qp_with_tag 10 (qp_write_bytes (enum_entry_bytes cid v))))
+  ++ qp_with_tag 34 (qp_write_bytes (enum_presence_bytes cid v)).
+
+Lemma sizeof_varint_le v : sizeof_varint v <= 10.
+Proof.
+  unfold sizeof_varint.
+  repeat match goal with |- context [if ?c then _ else _] => destruct c end; lia.
+Qed.
+
+Lemma len_tagged_bytes t b : t < 128 -> len (qp_with_tag t (qp_write_bytes b)) <= len b + 11.
+Proof.
+  intros Ht. rewrite len_with_tag_small by assumption. rewrite len_write_bytes. unfold sizeof_len.
+  pose proof (sizeof_varint_le (len b)). lia.
+Qed.
+
+Lemma len_tagged_varint t v : t < 128 -> len (qp_with_tag t (qp_write_varint v)) <= 11.
+Proof.
+  intros Ht. rewrite len_with_tag_small by assumption. rewrite len_write_varint.
+  pose proof (sizeof_varint_le v). lia.
+Qed.
+
+Section UnknownEnum.
+  Variables (cid : bytes) (v : N).
+  Hypothesis Hcid : len cid < 2 ^ 31.
+  Hypothesis Hv : v < 2 ^ 64.
+  Hypothesis Hv1 : v mod 2 ^ 32 <> 1.
+
+  Let eb := enum_entry_bytes cid v.
+  Let pb := enum_presence_bytes cid v.
+  Let wb := qp_with_tag 10 (qp_write_bytes eb).
+
+  Lemma ue_cid64 : len cid < 2 ^ 64.
+  Proof.
+    change (2 ^ 31) with 2147483648 in Hcid. change (2 ^ 64) with 18446744073709551616. lia.
+  Qed.
+
+  Lemma ue_len_eb : len eb <= len cid + 22.
+  Proof.
+    unfold eb, enum_entry_bytes. rewrite len_app.
+    pose proof (len_tagged_bytes 10 cid ltac:(lia)). pose proof (len_tagged_varint 32 v ltac:(lia)). lia.
+  Qed.
+
+  Lemma ue_len_pb : len pb <= len cid + 22.
+  Proof.
+    unfold pb, enum_presence_bytes. rewrite len_app.
+    pose proof (len_tagged_bytes 10 cid ltac:(lia)). pose proof (len_tagged_varint 16 v ltac:(lia)). lia.
+  Qed.
+
+  Lemma ue_len_wb : len wb <= len cid + 33.
+  Proof.
+    unfold wb. pose proof (len_tagged_bytes 10 eb ltac:(lia)). pose proof ue_len_eb. lia.
+  Qed.
+
+  Lemma ue_small x : x <= len cid + 33 -> x < 2 ^ 64 /\ x <? ref_two32 = true.
+  Proof.
+    unfold ref_two32. change (2 ^ 31) with 2147483648 in Hcid.
+    change (2 ^ 64) with 18446744073709551616. change (2 ^ 32) with 4294967296. lia.
+  Qed.
+
+  Lemma ue_Toks_eb : Toks eb [(1, PBytes cid); (4, PVarint v)].
+  Proof.
+    unfold eb, enum_entry_bytes. rewrite <- (app_nil_r (qp_with_tag 32 _)). unfold qp_write_bytes.
+    tok_bytes 1; [apply ue_cid64|]. tok_varint 4; [exact Hv|]. apply Toks_nil.
+  Qed.
+
+  Lemma ue_Toks_pb : Toks pb [(1, PBytes cid); (2, PVarint v)].
+  Proof.
+    unfold pb, enum_presence_bytes. rewrite <- (app_nil_r (qp_with_tag 16 _)). unfold qp_write_bytes.
+    tok_bytes 1; [apply ue_cid64|]. tok_varint 2; [exact Hv|]. apply Toks_nil.
+  Qed.
+
+  Lemma ue_ref_eb : ref_entry eb = Some (MkEntry cid 0 false WTBlock false).
+  Proof.
+    unfold ref_entry, ref_entry_into. rewrite (Toks_tokenise _ _ ue_Toks_eb). cbn [fold_opt].
+    change (ref_entry_step default_entry (1, PBytes cid)) with (Some (MkEntry cid 0 false WTBlock false)).
+    cbv iota.
+    change (ref_entry_step (MkEntry cid 0 false WTBlock false) (4, PVarint v))
+      with (Some (MkEntry cid 0 false (ref_want_type v) false)).
+    cbv iota. unfold ref_want_type, ref_int32. destruct (v mod 2 ^ 32 =? 1) eqn:E; [lia|reflexivity].
+  Qed.
+
+  Lemma ue_ref_pb : ref_presence pb = Some (MkPresence cid PHave).
+  Proof.
+    unfold ref_presence. rewrite (Toks_tokenise _ _ ue_Toks_pb). cbn [fold_opt].
+    change (ref_presence_step default_presence (1, PBytes cid)) with (Some (MkPresence cid PHave)).
+    cbv iota.
+    change (ref_presence_step (MkPresence cid PHave) (2, PVarint v))
+      with (Some (MkPresence cid (ref_presence_type v))).
+    cbv iota. unfold ref_presence_type, ref_int32. destruct (v mod 2 ^ 32 =? 1) eqn:E; [lia|reflexivity].
+  Qed.
+
+  Lemma ue_class_eb : class_entry eb = true.
+  Proof.
+    unfold class_entry, class_tokens. rewrite (Toks_tokenise _ _ ue_Toks_eb). cbn [forallb].
+    change (class_entry_tok (1, PBytes cid)) with (len cid <? ref_two32).
+    change (class_entry_tok (4, PVarint v)) with true.
+    destruct (ue_small (len cid) ltac:(lia)) as [_ ->]. reflexivity.
+  Qed.
+
+  Lemma ue_class_pb : class_presence pb = true.
+  Proof.
+    unfold class_presence, class_tokens. rewrite (Toks_tokenise _ _ ue_Toks_pb). cbn [forallb].
+    change (class_presence_tok (1, PBytes cid)) with (len cid <? ref_two32).
+    change (class_presence_tok (2, PVarint v)) with true.
+    destruct (ue_small (len cid) ltac:(lia)) as [_ ->]. reflexivity.
+  Qed.
+
+  Lemma ue_Toks_wb : Toks wb [(1, PBytes eb)].
+  Proof.
+    unfold wb. rewrite <- (app_nil_r (qp_with_tag 10 _)). unfold qp_write_bytes.
+    tok_bytes 1; [|apply Toks_nil]. pose proof ue_len_eb. apply ue_small. lia.
+  Qed.
+
+  Lemma ue_ref_wb : ref_wantlist wb = Some (MkWantlist [MkEntry cid 0 false WTBlock false] false).
+  Proof.
+    unfold ref_wantlist, ref_wantlist_into. rewrite (Toks_tokenise _ _ ue_Toks_wb). cbn [fold_opt].
+    change (ref_wantlist_step default_wantlist (1, PBytes eb))
+      with (match ref_entry eb with
+            | Some e => Some (MkWantlist ([] ++ [e]) false) | None => None end).
+    rewrite ue_ref_eb. reflexivity.
+  Qed.
+
+  Lemma ue_class_wb : class_wantlist wb = true.
+  Proof.
+    unfold class_wantlist, class_tokens. rewrite (Toks_tokenise _ _ ue_Toks_wb). cbn [forallb].
+    change (class_wantlist_tok (1, PBytes eb)) with ((len eb <? ref_two32) && class_entry eb).
+    rewrite ue_class_eb. pose proof ue_len_eb.
+    destruct (ue_small (len eb) ltac:(lia)) as [_ ->]. reflexivity.
+  Qed.
+
+  Lemma ue_Toks_msg : Toks (enum_message_bytes cid v) [(1, PBytes wb); (4, PBytes pb)].
+  Proof.
+    unfold enum_message_bytes. fold eb. fold wb. fold pb.
+    rewrite <- (app_nil_r (qp_with_tag 34 _)). unfold qp_write_bytes at 1 2.
+    tok_bytes 1; [pose proof ue_len_wb; apply ue_small; lia|].
+    tok_bytes 4; [pose proof ue_len_pb; apply ue_small; lia|]. apply Toks_nil.
+  Qed.
+
+  Definition enum_message_value : message :=
+    MkMessage (Some (MkWantlist [MkEntry cid 0 false WTBlock false] false)) [] [MkPresence cid PHave] 0.
+
+  Lemma ue_ref_msg : ref_decode (enum_message_bytes cid v) = Some enum_message_value.
+  Proof.
+    unfold ref_decode. rewrite (Toks_tokenise _ _ ue_Toks_msg). cbn [fold_opt].
+    change (ref_message_step default_message (1, PBytes wb))
+      with (match ref_wantlist wb with
+            | Some w => Some (MkMessage (Some w) [] [] 0) | None => None end).
+    rewrite ue_ref_wb.
+    change (ref_message_step
+              (MkMessage (Some (MkWantlist [MkEntry cid 0 false WTBlock false] false)) [] [] 0)
+              (4, PBytes pb))
+      with (match ref_presence pb with
+            | Some x => Some (MkMessage (Some (MkWantlist [MkEntry cid 0 false WTBlock false] false))
+                                        [] ([] ++ [x]) 0)
+            | None => None end).
+    rewrite ue_ref_pb. reflexivity.
+  Qed.
+
+  Lemma ue_in_class : in_class (enum_message_bytes cid v).
+  Proof.
+    unfold in_class, in_classb, class_tokens. rewrite (Toks_tokenise _ _ ue_Toks_msg).
+    cbn [forallb].
+    change (class_message_tok (1, PBytes wb)) with ((len wb <? ref_two32) && class_wantlist wb).
+    change (class_message_tok (4, PBytes pb)) with ((len pb <? ref_two32) && class_presence pb).
+    rewrite ue_class_wb, ue_class_pb.
+    pose proof ue_len_wb as Hw. pose proof ue_len_pb as Hp.
+    destruct (ue_small (len wb) ltac:(lia)) as [_ ->].
+    destruct (ue_small (len pb) ltac:(lia)) as [_ ->].
+    assert (Hlen : len (enum_message_bytes cid v) <? 2 ^ 64 = true).
+    { unfold enum_message_bytes. fold eb. fold wb. fold pb. rewrite len_app.
+      pose proof (len_tagged_bytes 10 wb ltac:(lia)). pose proof (len_tagged_bytes 34 pb ltac:(lia)).
+      change (2 ^ 31) with 2147483648 in Hcid. change (2 ^ 64) with 18446744073709551616. lia. }
+    rewrite Hlen. reflexivity.
+  Qed.
+End UnknownEnum.
+
+(* C11: an enum number the schema does not declare (any varint whose low 32 bits are not 1, i.e. 0,
+   2, 3, ..., negative numbers, numbers beyond 32 bits) is not an error: both the reference decoder
+   and quick-protobuf decode the field as the default value (Block / Have) and keep everything else. *)
+Theorem C11_unknown_enum_tolerated : forall chk cid v,
+  len cid < 2 ^ 31 -> v < 2 ^ 64 -> v mod 2 ^ 32 <> 1 ->
+  let w := enum_message_bytes cid v in
+  ref_decode w = Some (enum_message_value cid) /\
+  qp_read_message chk w (len w) = ROk (enum_message_value cid) (len w).
+Proof.
+  intros chk cid v Hcid Hv Hv1 w. split.
+  - apply ue_ref_msg; assumption.
+  - apply C11_accept_noncanonical; [apply ue_ref_msg|apply ue_in_class]; assumption.
+Qed.
+
+Example C11_unknown_enum_tolerated_ex :
+  enum_message_bytes [1; 2] 7 = [10; 8; 10; 6; 10; 2; 1; 2; 32; 7; 34; 6; 10; 2; 1; 2; 16; 7] /\
+  qp_read_message true (enum_message_bytes [1; 2] 4294967295) (len (enum_message_bytes [1; 2] 4294967295))
+  = ROk (enum_message_value [1; 2]) 26.
+Proof. vm_compute. split; reflexivity. Qed.
+
+(* the conversions themselves *)
+Lemma want_type_of_i32_unknown v : v <> 1 -> want_type_of_i32 v = WTBlock.
+Proof. intros H. unfold want_type_of_i32. destruct (v =? 0); [reflexivity|]. destruct (v =? 1) eqn:E; [lia|reflexivity]. Qed.
+
+Lemma presence_type_of_i32_unknown v : v <> 1 -> presence_type_of_i32 v = PHave.
+Proof. intros H. unfold presence_type_of_i32. destruct (v =? 0); [reflexivity|]. destruct (v =? 1) eqn:E; [lia|reflexivity]. Qed.
